@@ -45,7 +45,8 @@ ASSUMPTIONS = ['record = one SSH packet (asserted by the tap)',
                'UMAC (no reference implementation) only prefix-ness and the '
                'error class are judged']
 REQUIRED = ['tampers_applied', 'prefix_exact_checked', 'error_class_checked',
-            'flip_cases', 'trunc_cases', 'reorder_cases', 'stalls_resolved']
+            'flip_cases', 'trunc_cases', 'reorder_cases', 'stalls_resolved',
+            'rekey_cases']
 BUDGET_S = {'quick': 300, 'thorough': 3400}
 CASE_TIMEOUT_S = 40
 
@@ -104,12 +105,36 @@ def gen_cases(tier, seed):
                       'aead': False, 'cmp': 'none', 'dir': d, 'index': j,
                       'op': list(op), 'chunk': 'all', 'big': False,
                       'cseed': rng.randrange(1 << 30)})
+    # tampering while a re-key is in progress: the record right after the
+    # k-th KEXINIT of that direction (it usually travels in the same segment)
+    suites = [('aes128-ctr', 'hmac-sha2-256', False),
+              ('aes128-gcm@openssh.com', 'hmac-sha1', True),
+              ('chacha20-poly1305@openssh.com', 'hmac-sha1', True),
+              ('aes256-cbc', 'hmac-sha2-512-etm@openssh.com', False),
+              ('3des-cbc', 'hmac-sha1-96', False)]
+    nrk = 120 if tier == 'quick' else 1500
+    for i in range(nrk):
+        e, m, a = suites[i % len(suites)]
+        cases.append({'enc': e, 'mac': m, 'aead': a,
+                      'cmp': rng.choice(['none', 'none', 'zlib@openssh.com']),
+                      'dir': rng.choice([C2S, S2C]),
+                      'index': rng.choice([1, 1, 2, 3]),
+                      'rekey': rng.choice(['client', 'server', 'both']),
+                      'op': list(rng.choice([('flip', 'body'), ('flip', 'tagN'),
+                                             ('flip', 'pad'), ('flip', 'tag0'),
+                                             ('flip', 'len3'), ('dup', ''),
+                                             ('drop', ''), ('insert', ''),
+                                             ('trunc', 'half')])),
+                      'chunk': rng.choice(['all', 'all', 'record', 'one',
+                                           'random']),
+                      'big': False, 'cseed': rng.randrange(1 << 30)})
     return cases
 
 
 def signature(case):
     parts = (case['enc'], case['mac'] if not case['aead'] else '-',
-             case['cmp'], case['dir'], case['index'], tuple(case['op']))
+             case['cmp'], case['dir'], case['index'], tuple(case['op']),
+             case.get('rekey'), case['chunk'] if case.get('rekey') else '')
     return hashlib.sha1(repr(parts).encode()).hexdigest()[:16]
 
 
@@ -127,6 +152,8 @@ class Tamper:
         self.held = None
         self.link = None
         self.layout = None
+        self.kexinits = 0
+        self.armed = False
 
     def _layout(self, n):
         """(len field range, first block, body, pad, tag) byte offsets"""
@@ -175,7 +202,19 @@ class Tamper:
             held, self.held = self.held, None
             return [data, held]
 
-        if j != self.case['index'] or self.applied is not None:
+        if self.case.get('rekey'):
+            # target: the record following the k-th KEXINIT sent in this
+            # direction after the first NEWKEYS
+            if self.applied is not None:
+                return None
+            if info is not None and info[0] == R.MSG_KEXINIT:
+                self.kexinits += 1
+                self.armed = self.kexinits == self.case['index']
+                return None
+            if not self.armed:
+                return None
+            self.armed = False
+        elif j != self.case['index'] or self.applied is not None:
             return None
 
         self.applied = {'record': j, 'len': len(data), 'op': op, 'arg': arg}
@@ -281,10 +320,16 @@ def run_case(case):
 
         algs = dict(encryption_algs=[case['enc']], mac_algs=[case['mac']],
                     compression_algs=[case['cmp']])
+        salgs, calgs = dict(algs), dict(algs)
+        if case.get('rekey') in ('server', 'both'):
+            salgs['rekey_bytes'] = 3000
+        if case.get('rekey') in ('client', 'both'):
+            calgs['rekey_bytes'] = 2500
+        mon['rekey_cases'] += 1 if case.get('rekey') else 0
 
         async with scen.Env(loop, server_factory=mk_srv,
                             chunking=case['chunk'], seed=case['cseed'],
-                            server_opts=algs) as env:
+                            server_opts=salgs) as env:
             t = tapmod.Tap(env.wire)
             tm = Tamper(case, t, rng)
             env.wire.mitm = tm
@@ -308,7 +353,7 @@ def run_case(case):
                         ss.chan.exit(0)
 
                 async def scenario():
-                    conn = await env.connect(client_factory=mk_cli, **algs)
+                    conn = await env.connect(client_factory=mk_cli, **calgs)
                     state['conn'] = conn
                     chan, cs = await conn.create_session(
                         lambda: apps.RecClientSession(log, 'c'), 'x',
@@ -419,6 +464,21 @@ def run_case(case):
                 elif exc is None and not clean_end:
                     viol.append({'mechanism': 'clean_close_after_tamper',
                                  'detail': str(tm.applied)})
+                elif stalled and op == 'flip' and \
+                        case['op'][1] in ('body', 'pad', 'tag0', 'tagN') and \
+                        not ('cbc' in case['enc'] and
+                             tm.applied.get('offset', 0) < bs):
+                    # (a CBC ciphertext flip inside the first block garbles
+                    # the decrypted length, so waiting is legitimate there)
+                    # the length field is intact and every byte of the
+                    # record arrived: nothing to wait for, the receiver has
+                    # to notice the alteration by itself
+                    viol.append({
+                        'mechanism': 'tamper_not_detected',
+                        'detail': f'the altered record was completely '
+                                  f'delivered but the connection stayed up '
+                                  f'until the harness cut it ({exc!r}); '
+                                  f'{tm.applied}'})
                 elif name == 'ConnectionLost':
                     if not (stalled or op in ('trunc', 'drop', 'swap') or
                             clean_end):
